@@ -129,7 +129,7 @@ def write_evidence(prop, meta, tier, agg, wall, violations, known_hit, inconclus
         "wall_s": round(wall, 2),
         "violations": violations,
     }
-    env.EVIDENCE.mkdir(exist_ok=True)
+    env.EVIDENCE.mkdir(parents=True, exist_ok=True)
     path = env.EVIDENCE / f"{prop}.json"
     try:
         sys.path.append(str(env.DEPS))
